@@ -248,11 +248,26 @@ fn arb_case(depth: u32) -> BoxedStrategy<Program> {
     let mut cfg_pure = cfg.clone();
     cfg_pure.assignments = false;
     let effectful = (c08_program(depth), programs::arb_ctx()).prop_map(|(src, ctx)| Program { family: "ast", src, ast: None, ctx });
+    // a variable may be *named* like a literal (set through the API): the expression `42` still is
+    // the number, in every evaluator
+    let literal_named = (
+        proptest::sample::select(vec!["42", "true", "false", "0x10", "1e3", "inf", "nan", ".5", "a", "007"]),
+        proptest::collection::vec(proptest::sample::select(vec!["42", "true", "false", "0x10", "1e3", "inf", "nan", ".5", "a", "007"]), 0..4),
+        proptest::sample::select(vec!["", " ", " + 1", " == a"]),
+        programs::arb_ctx(),
+    )
+        .prop_map(|(word, bound, tail, mut ctx)| {
+            for (i, n) in bound.iter().enumerate() {
+                ctx.vars.insert(n.to_string(), refmodel::value::RV::Int(100 + i as i64));
+            }
+            Program { family: "literal-named", src: format!("{}{}", word, tail), ast: None, ctx }
+        });
     prop_oneof![
         4 => programs::arb_ast_program(cfg),
         3 => programs::arb_ast_program(cfg_pure),
         3 => effectful,
         1 => programs::arb_soup_program(10),
+        1 => literal_named,
     ]
     .boxed()
 }
@@ -281,19 +296,25 @@ fn c08_program(depth: u32) -> BoxedStrategy<String> {
     let bool_leaf = prop_oneof![
         any::<bool>().prop_map(|x| Ast::Lit(RV::Bool(x))),
         (e.clone(), e.clone()).prop_map(|(a, c)| Ast::Bin(BinOp::Lt, Box::new(a), Box::new(c))),
-    ];
+    ]
+    .boxed();
     let failing = prop_oneof![
         Just(Ast::Bin(BinOp::Div, Box::new(Ast::Lit(RV::Int(1))), Box::new(Ast::Lit(RV::Int(0))))),
         Just(Ast::Var("missing".into())),
         e.clone(),
         e.clone().prop_map(|a| Ast::Chain(vec![Ast::Assign(AssignOp::Set, "x".into(), Box::new(a)), Ast::Lit(RV::Bool(true))])),
-    ];
-    let logic = (any::<bool>(), bool_leaf, proptest::sample::select(vec!["f", "g", "typeof", "math::is_nan", "nofn"]), failing).prop_map(
+    ]
+    .boxed();
+    let logic = (any::<bool>(), bool_leaf.clone(), proptest::sample::select(vec!["f", "g", "typeof", "math::is_nan", "nofn"]), failing.clone()).prop_map(
         |(and, l, f, arg)| Ast::Bin(if and { BinOp::And } else { BinOp::Or }, Box::new(l), Box::new(Ast::Call(f.to_string(), Box::new(arg)))),
     );
+    // the builtin `if` is eager: the branch that is not selected is evaluated too
+    let eager_if = (bool_leaf.clone(), failing.clone(), failing.clone())
+        .prop_map(|(c, x, y)| Ast::Call("if".into(), Box::new(Ast::Tuple(vec![c, x, y]))));
     let stmt = prop_oneof![
         3 => e.clone(),
         2 => logic,
+        2 => eager_if,
         2 => (proptest::sample::select(vec!["a", "b", "x", "n"]), proptest::sample::select(AssignOp::ALL.to_vec()), e.clone())
             .prop_map(|(n, o, a)| Ast::Assign(o, n.to_string(), Box::new(a))),
     ];
